@@ -10,6 +10,7 @@ import struct
 import traceback
 
 from pvm.gen import ofgen
+from pvm.ref import ofwire
 from pvm import simnet
 
 ID = "C02"
@@ -26,7 +27,8 @@ ASSUMPTIONS = ["segmentation is simulated at the socket API (recv return "
                "messages come from the C01 generators; a message is "
                "identified by its exact bytes (re-packed on delivery)"]
 REQUIRED = ["reads", "delivered", "cuts_inside_header", "cuts_inside_body",
-            "held_partial", "ctl_cases", "sw_cases", "over_2048"]
+            "held_partial", "ctl_cases", "sw_cases", "over_2048",
+            "handshake_streams"]
 TIMEOUT = {"quick": 900, "thorough": 7200}
 
 _cache = {}
@@ -183,9 +185,131 @@ def run_case (case, rep):
            nontrivial=bool(inside_hdr or inside_body))
 
 
+# ---------------------------------------------------------------------------
+# segmentation across the end of the handshake (real handler tables)
+
+def hs_stream (seed):
+  """(messages before the barrier reply, messages after it) as dicts."""
+  from pvm import ctl
+  rng = random.Random("c02hs/%s" % seed)
+  def ps (n):
+    return ("port_status", dict(xid=0, reason=rng.choice([0, 2]),
+                                desc=ctl.phy_port(n, config=rng.choice([0, 1]))))
+  early = [ps(rng.randrange(1, 5)) for _ in range(rng.randrange(0, 3))]
+  late = []
+  for i in range(rng.randrange(1, 7)):
+    k = rng.choice(["packet_in", "packet_in", "port_status", "flow_removed",
+                    "error", "barrier_reply", "echo_request"])
+    if k == "packet_in":
+      data = bytes([i, 2, 3, 4, 5, 6, 2, 0, 0, 0, 0, 1, 0x88, 0xb5]) + bytes(rng.randrange(0, 40))
+      late.append((k, dict(xid=0, buffer_id=0xffffffff, total_len=len(data),
+                           in_port=1 + i % 4, reason=0, data=data)))
+    elif k == "port_status": late.append(ps(rng.randrange(1, 5)))
+    elif k == "flow_removed":
+      m = dict(wildcards=(1 << 22) - 1, in_port=0, dl_src=bytes(6), dl_dst=bytes(6),
+               dl_vlan=0, dl_vlan_pcp=0, dl_type=0, nw_tos=0, nw_proto=0,
+               nw_src=0, nw_dst=0, tp_src=0, tp_dst=0)
+      late.append((k, dict(xid=0, match=m, cookie=100 + i, priority=i, reason=0,
+                           duration_sec=1, duration_nsec=0, idle_timeout=0,
+                           packet_count=i, byte_count=i)))
+    elif k == "error":
+      late.append((k, dict(xid=50 + i, type=1, code=1, data=bytes(8))))
+    elif k == "barrier_reply": late.append((k, dict(xid=900 + i)))
+    else: late.append((k, dict(xid=700 + i, body=b"e%d" % i)))
+  return early, late
+
+
+def run_hs (case, rep):
+  """
+  Hello and features reply arrive first (the barrier request's xid has to be
+  read from what the controller sends); everything from there on - early
+  port-status messages, the barrier reply that completes the handshake, and
+  the traffic behind it - is cut as the case says.  What is observed is the
+  events the connection raises, through POX's own listener API.
+  """
+  from pvm import ctl
+  of_01 = boot()
+  import pox.openflow as pofm
+  core = __import__("pox.core").core.core
+  if not core.hasComponent("openflow"): pofm.launch()
+  def fire (key, what):
+    rep.violation("C02 ctl-handshake %s" % key, what, case)
+  early, late = hs_stream(case["seed"])
+  peer = ctl.Peer(of_01)
+  got = []
+  con = peer.con
+  con.addListenerByName("ConnectionUp", lambda e: got.append(("up",)))
+  con.addListenerByName("PortStatus", lambda e: got.append(
+    ("port_status", e.ofp.reason, e.ofp.desc.port_no)))
+  con.addListenerByName("PacketIn", lambda e: got.append(
+    ("packet_in", e.port, bytes(e.data))))
+  con.addListenerByName("FlowRemoved", lambda e: got.append(
+    ("flow_removed", e.ofp.cookie)))
+  con.addListenerByName("ErrorIn", lambda e: got.append(("error", e.xid)))
+  con.addListenerByName("BarrierIn", lambda e: got.append(("barrier_reply", e.xid)))
+  peer.feed(ofwire.enc_message("hello", dict(xid=0)))
+  peer.sent_messages()
+  peer.feed(ofwire.enc_message("features_reply", dict(
+    xid=1, datapath_id=case.get("dpid", 0x2002), n_buffers=0, n_tables=1,
+    capabilities=0, actions=0xfff, ports=[ctl.phy_port(n) for n in (1, 2, 3, 4)])))
+  bx = None
+  for m in peer.sent_messages():
+    if m["name"] == "barrier_request": bx = m["xid"]
+  if bx is None:
+    raise simnet.AdapterError("no barrier request after features reply")
+  msgs = [ofwire.enc_message(k, d) for k, d in early]
+  msgs.append(ofwire.enc_message("barrier_reply", dict(xid=bx)))
+  msgs += [ofwire.enc_message(k, d) for k, d in late]
+  stream = b"".join(msgs)
+  cuts = sorted(set(c for c in case["cuts"] if 0 < c < len(stream)))
+  prev = 0
+  for c in cuts + [len(stream)]:
+    if not peer.feed(stream[prev:c]):
+      fire("connection closed by valid traffic", "at byte %d" % c); return
+    prev = c
+    rep.count("reads")
+  want = [("up",)]
+  for k, d in early + late:
+    if k == "port_status": want.append((k, d["reason"], d["desc"]["port_no"]))
+    elif k == "packet_in": want.append((k, d["in_port"], d["data"]))
+    elif k == "flow_removed": want.append((k, d["cookie"]))
+    elif k == "error": want.append((k, d["xid"]))
+    elif k == "barrier_reply": want.append((k, d["xid"]))
+  rep.count("handshake_streams")
+  rep.count("delivered", len(got))
+  if got != want:
+    j = 0
+    while j < min(len(got), len(want)) and got[j] == want[j]: j += 1
+    fire("events differ from the messages sent" +
+         (" (messages behind the barrier reply in the same read)"
+          if not any(sum(len(x) for x in msgs[:len(early) + 1]) == c for c in cuts)
+          else ""),
+         "cuts %r: %d events, %d expected; first difference at #%d: got %r "
+         "expected %r" % (cuts, len(got), len(want), j,
+                          got[j][:2] if j < len(got) else None,
+                          want[j][:2] if j < len(want) else None))
+  try:
+    con.disconnect()
+  except Exception:
+    pass
+  rep.case(repr(("hs", case["seed"], cuts)).encode(), nontrivial=bool(cuts))
+
+
 def gen_cases (spec):
   rng = random.Random("c02/%d/%d" % (spec["seed"], spec["sub"]))
   mode = spec["mode"]
+  if mode == "hs":
+    for si in range(spec["streams"]):
+      seed = "%d/%d/%d/hs" % (spec["seed"], spec["sub"], si)
+      base = dict(kind="hs", side="ctl", seed=seed, dpid=0x2000 + si % 5)
+      yield dict(base, cuts=[])
+      early, late = hs_stream(seed)
+      L = 8 * (len(early) + 1) + 64 * len(early) + 80 * len(late) + 64
+      for _ in range(spec.get("rand", 6)):
+        yield dict(base, cuts=sorted(rng.randrange(1, L)
+                                     for _ in range(rng.randrange(1, 4))))
+      yield dict(base, cuts=list(range(1, L)))
+    return
   for si in range(spec["streams"]):
     side = ("ctl", "sw")[si % 2]
     seed = "%d/%d/%d/%s" % (spec["seed"], spec["sub"], si, mode)
@@ -243,12 +367,14 @@ def plan (tier, seed):
     sp += [dict(mode="misc", streams=120, sub=i, rand=15) for i in range(3)]
     sp += [dict(mode="big", streams=30, sub=i, rand=10) for i in range(3)]
     sp += [dict(mode="many", streams=40, sub=i, rand=6) for i in range(2)]
+    sp += [dict(mode="hs", streams=150, sub=i, rand=6) for i in range(2)]
     return sp
   sp = [dict(mode="cut1", streams=150, sub=i) for i in range(16)]
   sp += [dict(mode="cut2", streams=400, sub=i, maxlen=140) for i in range(16)]
   sp += [dict(mode="misc", streams=3000, sub=i, rand=40) for i in range(8)]
   sp += [dict(mode="big", streams=500, sub=i, rand=40) for i in range(8)]
   sp += [dict(mode="many", streams=1500, sub=i, rand=20) for i in range(8)]
+  sp += [dict(mode="hs", streams=6000, sub=i, rand=12) for i in range(8)]
   return sp
 
 
@@ -257,11 +383,12 @@ def run (spec, rep):
   first = True
   for case in gen_cases(spec):
     try:
-      run_case(case, rep)
+      if case.get("kind") == "hs": run_hs(case, rep)
+      else: run_case(case, rep)
     except Exception:
       rep.violation("C02 harness-visible exception",
                     traceback.format_exc()[-900:], case)
-    if first and case["cuts"]:
+    if first and case["cuts"] and case.get("kind") != "hs":
       rep.sample(dict(case=case, stream_len=sum(
         len(m) for m in make_stream(case["side"], case["seed"],
                                     case.get("big", False)))))
@@ -270,4 +397,5 @@ def run (spec, rep):
 
 def replay (witness, rep):
   boot()
-  run_case(witness, rep)
+  if witness.get("kind") == "hs": run_hs(witness, rep)
+  else: run_case(witness, rep)
